@@ -21,7 +21,7 @@ TRUSTED = ["sympy normal-form procedures (expand/together/powsimp/expand_log) an
 ASSUMPTIONS = ["z_factor_DAK is opaque (an uninterpreted function of its four arguments): C13 needs only that both sides use the same Z"]
 
 T, p, api, gg, R, Tpc, Ppc, Tstd, pstd = sym_args(["T", "p", "api", "gg", "R", "Tpc", "Ppc", "Tstd", "pstd"])
-OILP = dict(OIL_BOX, p=(15.0, 15000.0))
+OILP = dict(OIL_BOX, p=(1.0, 15000.0))  # the identities are claimed for every positive pressure (shipped tables start at 10 psia and below)
 
 
 def opaque_z(ctx):
